@@ -258,6 +258,18 @@ def proof_status(pid, thorough=False):
     return res
 
 
+def proof_counterexample(proof):
+    """When the obligation that ties a REGENERATED function to the model breaks, search the two for an argument tuple
+    on which they differ (Lean, exhaustive over a small domain). Returns a line of text or None."""
+    text = (proof.get("log") or "") + " ".join(proof.get("problems") or [])
+    if "OverlapsGen" in text:
+        rc, out = run(["lake", "env", "lean", "--run", "Cex/OverlapsCex.lean"], cwd=LEAN)
+        m = re.search(r"^CEX (.*)$", out, re.M)
+        if m:
+            return "gen_overlaps_eq_ov: " + m.group(1)
+    return None
+
+
 # ------------------------------------------------------------------------------------------------
 # running cases
 
@@ -744,9 +756,13 @@ def run_differential(prop, tier, seed, replay=None):
     rep.coverage["phase_s"]["classify+shrink"] = round(time.time() - rep.t0, 1)
     prop.extra_checks(rep, tier, rng.fork("extra"), workdir)
     rep.coverage["phase_s"]["extra"] = round(time.time() - rep.t0, 1)
+    cex = proof_counterexample(proof) if not proof["ok"] else None
+    if cex:
+        rep.notes.append("broken proof obligation, failing input of the regenerated function: " + cex)
     if not proof["ok"] and not rep.violations:
         rep.violation("proof_obligation.txt",
                       "Proof obligations of Props/%s.lean no longer check:\n%s\n" % (pid, "\n".join(proof["problems"])) +
+                      (("Search in the model: " + cex + "\n") if cex else "") +
                       "The correspondence run found no failing input.\n",
                       "no-failing-input-found")
     rep.coverage["rule"] = prop.rule
